@@ -24,6 +24,15 @@ CURATED = [
     ("round-up", [["s", G.INNER, None], ["raw", G.arr(G.U8, 5), None], ["t", G.I24, None]]),
     ("nested-deep", [["o", ["struct", "outer", [["i", G.INNER, None], ["k", G.U16, None]], False], None], ["q", G.U64, None]]),
     ("enum-wchar", [["e", G.E16, None], ["w", G.arr(G.WCHAR, 2), None], ["b", G.arr(G.U8, 4), None]]),
+    ("nested-3", [["s", ["struct", "L1", [["hdr", ["struct", "L2", [["pos", ["struct", "L3", [["x", G.U8, None], ["y", G.U8, None]], False], None],
+                                                              ["k", G.U8, None]], False], None], ["z", G.U16, None]], False], None],
+                  ["q", G.U64, None]]),
+    ("nested-3-twin", [["s", ["struct", "M1", [["hdr", ["struct", "M2", [["pos", ["struct", "M3", [["x", G.U8, None], ["y", G.U8, None]], False], None],
+                                                                   ["k", G.U8, None]], False], None], ["z", G.U16, None]], False], None],
+                       ["hdr", G.U32, None]]),
+    ("union-in-union", [["i", ["union", "IU", [["a", G.U8, None], ["s", ["struct", "IS", [["x", G.U8, None], ["y", G.U8, None]], False], None],
+                                                ["w", G.U32, None]], False], None], ["q", G.U64, None]]),
+    ("short-chars", [["c", G.arr(G.CHAR, 4), None], ["v", G.U32, None]]),
     ("padded-vs-flat", [["s", G.INNER2, None], ["q", G.U64, None]]),
     ("flat-vs-padded", [["q", G.U64, None], ["s", G.INNER2, None]]),
     ("anon-largest", [["tag", G.U8, None], [None, ["struct", "", [["lo", G.U32, None], ["hi", G.U32, None]], True], None]]),
@@ -48,9 +57,9 @@ def assignables(T, L):
             if fname is None:
                 walk(prefix, FT[2], depth)   # anonymous member: fields reachable directly
                 continue
-            if FT[0] == "struct":
+            if FT[0] in ("struct", "union"):
                 walk(prefix + [fname], FT[2], depth + 1)
-                if depth == 0:
+                if depth == 0 and FT[0] == "struct":
                     out.append((prefix + [fname], FT))
             else:
                 out.append((prefix + [fname], FT))
@@ -189,6 +198,7 @@ def make(case):
             buf = bytes_ + [0] * (size - len(bytes_))
         check_views(ctx, u, buf, "initial")
         failed = [None]
+        ctx.inputs["assigned"] = []
 
         def assign(obj, name, value):
             try:
@@ -198,6 +208,7 @@ def make(case):
         for step in range(steps):
             j = ctx.choose(f"target{step}", len(targets))
             path, LT = targets[j]
+            ctx.inputs["assigned"].append(".".join(path))
             lv, rv = sym_value(ctx, LT, L, f"a{step}", member_type(path))
             # the top-level member that carries the write, and its updated reference value
             ref = H.ref_parser(ctx, cfg)
@@ -235,6 +246,29 @@ def make(case):
                 for name in path[:-1]:
                     obj = getattr(obj, name)
                 assign(obj, path[-1], lv)
+            if topT is not None and topT[0] == "union" and top is not None:
+                # union inside the union: its bytes with the assigned member re-encoded in place
+                usize = L.size_align(topT)[0]
+                old = [buf[i] for i in range(usize)]
+                sub = next(f for f in topT[2] if f[0] == path[1])
+                if len(path) == 2:
+                    sb, _ = enc.encode(sub[1], rv)
+                else:
+                    r2 = H.ref_parser(ctx, cfg)
+                    cur2, _ = r2.parse(sub[1], old, 0)
+                    node = cur2
+                    for name in path[2:-1]:
+                        node = node[name]
+                    node[path[-1]] = rv
+                    sb, _ = enc.encode(sub[1], cur2)
+                newbytes = sb + old[len(sb):]
+                ctx.observe(f"step{step}", ".".join(path))
+                if failed[0]:
+                    ctx.check(f"assigning {'.'.join(path)} works", False, failed[0])
+                    return
+                buf = [newbytes[i] if i < usize else buf[i] for i in range(size)]
+                check_views(ctx, u, buf, f"after {'.'.join(path)}")
+                continue
             ctx.observe(f"step{step}", ".".join(path))
             if failed[0]:
                 ctx.check(f"assigning {'.'.join(path)} works", False, failed[0])
